@@ -5,6 +5,7 @@ go 1.24.2
 require (
 	github.com/anishathalye/porcupine v1.3.0
 	github.com/oxia-db/oxia v0.0.0
+	google.golang.org/protobuf v1.36.6
 )
 
 require (
@@ -38,7 +39,6 @@ require (
 	golang.org/x/text v0.25.0 // indirect
 	google.golang.org/genproto/googleapis/rpc v0.0.0-20250505200425-f936aa4a68b2 // indirect
 	google.golang.org/grpc v1.72.0 // indirect
-	google.golang.org/protobuf v1.36.6 // indirect
 )
 
 replace github.com/oxia-db/oxia => /repo
